@@ -54,7 +54,7 @@ func ReadRequest(r io.Reader) (apiVersion int16, correlationID int32, clientID s
 	if req.flexible {
 		// In the flexible case, there's a tag buffer at the end of the request header
 		taggedCount := int(d.readUnsignedVarInt())
-		for i := 0; i < taggedCount && d.remain > 0; i++ {
+		for i := 0; i < taggedCount && !d.done(); i++ {
 			d.readUnsignedVarInt() // tagID
 			size := d.readUnsignedVarInt()
 
